@@ -281,6 +281,9 @@ func (x *Exec) callback(st *State, fr *Frame, fv Val, args []Val, call *ssa.Call
 	mayPanic := false
 	pure := false
 	if x.fc != nil {
+		if _, has := x.fc.Opts["callback."+name]; has {
+			x.note("opt-used:callback." + name)
+		}
 		switch x.fc.Opts["callback."+name] {
 		case "maypanic":
 			mayPanic = true
@@ -348,6 +351,11 @@ func (x *Exec) invoke(st *State, fr *Frame, in ssa.Instruction, call *ssa.CallCo
 		}
 	}
 	sig := call.Signature()
+	if x.fc != nil {
+		if _, has := x.fc.Opts["invoke."+name]; has {
+			x.note("opt-used:invoke." + name)
+		}
+	}
 	if x.fc != nil && strings.Contains(x.fc.Opts["invoke."+name], "maypanic") {
 		// a user-supplied implementation: may return anything or panic with any value
 		x.note("interface method " + name + ": user callback, results unconstrained, may panic with any value, heap havocked")
@@ -460,6 +468,11 @@ func (x *Exec) applyContractSig(st *State, fr *Frame, fc *FuncContract, sig *typ
 			clsPats = append(clsPats, "~"+strings.TrimPrefix(a, "class:"))
 		default:
 			classOnly = false
+		}
+	}
+	if !frameOK && classOnly && in != nil {
+		for _, cp := range clsPats {
+			x.guardCheckW(st, fr, in, strings.TrimPrefix(cp, "~"), true, true)
 		}
 	}
 	if !frameOK && classOnly {
@@ -920,13 +933,31 @@ func (x *Exec) lockOp(st *State, fr *Frame, in ssa.Instruction, full string, arg
 		pos = in.Pos()
 	}
 	o := x.oblig(name, "lock-discipline", props, pos, "Lock only when not held, Unlock only when held (ghost held(mu))")
+	shared := x.sharedArr(st)
+	isShared := strings.HasSuffix(full, "RLock") || strings.HasSuffix(full, "RUnlock")
 	if lock {
 		x.check(st, o, "(not (select "+arr+" "+id+"))")
 		st.ghost["held"] = "(store " + arr + " " + id + " true)"
+		// a read lock is held, but not exclusively: writes to what the lock guards are not covered by it
+		st.ghost["shared"] = "(store " + shared + " " + id + " " + map[bool]string{true: "true", false: "false"}[isShared] + ")"
 	} else {
 		x.check(st, o, "(select "+arr+" "+id+")")
+		// the unlock must match the way the lock was taken
+		x.check(st, o, "(= (select "+shared+" "+id+") "+map[bool]string{true: "true", false: "false"}[isShared]+")")
 		st.ghost["held"] = "(store " + arr + " " + id + " false)"
+		st.ghost["shared"] = "(store " + shared + " " + id + " false)"
 	}
+}
+
+func (x *Exec) sharedArr(st *State) string {
+	if st.ghost == nil {
+		st.ghost = map[string]string{}
+	}
+	if a, ok := st.ghost["shared"]; ok {
+		return a
+	}
+	st.ghost["shared"] = "((as const (Array Int Bool)) false)"
+	return st.ghost["shared"]
 }
 
 // functionalSnapshot flattens argument values, snapshotting byte slices as
